@@ -496,6 +496,21 @@ def rule_r6(chk, db):
             chk.anchor_missing("R6", "%s not found" % name)
             continue
         somes = [w for w in flow.return_writes(b) if w["kind"] == "Some"]
+        if not somes and need_full:
+            # built on the prefix parser: `let (x, rest) = parse_u64_once(s)?; rest.is_empty().then_some(x)` - non-emptiness is the prefix
+            # parser's own obligation (decided below), "all input consumed" is "the rest it returned is empty"
+            deleg = [w for w in flow.return_writes(b) if w["kind"] == "call" and short(callee_def(w["term"])) in ("then_some", "then") and len(w["term"]["args"]) >= 2]
+            if deleg:
+                for w in deleg:
+                    t_ = w["term"]
+                    sv = flow.backward(b, t_["args"][1], at=w["bi"])
+                    sc = flow.backward(b, t_["args"][0], at=w["bi"])
+                    from_once = any(callee_def(x) == RG + "parse_u64_once" for _, x, _ in sv.calls)
+                    rest_empty = any(short(callee_def(x)) == "is_empty" for _, x, _ in sc.calls) and any(callee_def(x) == RG + "parse_u64_once" for _, x, _ in sc.calls)
+                    chk.verdict(from_once, "R6", short(name) + ".non-empty", b.loc(w["bi"]),
+                                "%s accepts a value that does not come from the prefix parser (whose digit run is non-empty)" % short(name))
+                    chk.verdict(rest_empty, "R6", short(name) + ".full", b.loc(w["bi"]), "%s accepts trailing bytes after the digits (the rest is not required to be empty)" % short(name))
+                continue
         if not somes:
             chk.fail("R6", short(name), b.loc(), "no accepting return found")
             continue
